@@ -143,6 +143,8 @@ pub fn build_scene_m(ctx: &Ctx, rng: &mut Rng, names: Vec<Vec<u8>>, links: bool,
         materialize(&dir, &Spec::Link(b"lo".to_vec(), outside[0].clone()));
         materialize(&dir, &Spec::Link(b"ldang".to_vec(), b"nowhere".to_vec()));
         materialize(&dir, &Spec::Link(b"lf".to_vec(), outside[2].clone()));
+        // a link in a subdirectory whose target is relative to that subdirectory (not to the working directory)
+        materialize(&out_dir, &Spec::Link(b"lrel".to_vec(), b"o0".to_vec()));
     }
     std::fs::write(dir.join("plain"), b"x").unwrap();
     let (mounts, mount_point) = if mounted { mount_inside(rng, &dir, &names) } else { (vec![], None) };
@@ -154,7 +156,7 @@ pub fn build_scene_m(ctx: &Ctx, rng: &mut Rng, names: Vec<Vec<u8>>, links: bool,
         cands.insert(2, m.as_str());
     }
     if links {
-        cands.extend(["lr", "lo", "ldang", "lf", "lr/"]);
+        cands.extend(["lr", "lo", "ldang", "lf", "lr/", "outside/lrel"]);
     }
     for c in cands {
         roots.push((c.as_bytes().to_vec(), observe_root(c.as_bytes(), &dir.join(c))));
